@@ -106,6 +106,9 @@ impl<'a, R: FsModuleResolver> ImportsVisitor<'a, R> {
 }
 
 impl<R: FsModuleResolver> Visit for ImportsVisitor<'_, R> {
+    // what a namespace (or `declare module`) exports belongs to the namespace, not to the export table of the file
+    fn visit_ts_module_decl(&mut self, _n: &swc_ecma_ast::TsModuleDecl) {}
+
     fn visit_export_default_expr(&mut self, n: &ExportDefaultExpr) {
         self.symbol_exports.set_default_export(
             SymbolExportDefault::Expr {
